@@ -25,6 +25,7 @@ func c03(c *Ctx) {
 	c03token(c)
 	c03reserve(c)
 	c03monitor(c)
+	c03entryPoints(c)
 	scriptDispatch(c, "C03.R8")
 	// R9 (round 8): what the limiter takes for a store outage is the redis breaker's answer — the breaker's entry-point
 	// rules (C01) are part of this check (an entry point that returns something other than the context's error, or a hook
@@ -779,4 +780,68 @@ func c03monitor(c *Ctx) {
 	o := c.R.Check(len(bad) == 0 && sites >= 2, rule, limitPkg+".TokenLimiter.redisAlive", "redisAlive is written (after construction) only by startMonitor and waitForRedis", "-", fmt.Sprint(bad), nil, 0)
 	o.Sites = sites
 	c.R.Min(rule, 4, "startMonitor (2), waitForRedis, writers")
+}
+
+// c03entryPoints (C03.R10, round 8): "a request is granted iff the bucket holds n tokens" — the answer is the bucket's,
+// for every request. Each exported Allow… method of TokenLimiter reaches reserveN exactly once on every path, for its own
+// n (1 for the shorthands) and its own context, and returns that answer unchanged. A shortcut in an entry point — a
+// remembered "exhausted in this second", a fast refusal for a done context — answers for the bucket without asking it.
+func c03entryPoints(c *Ctx) {
+	rule := "C03.R10"
+	reserve := calleeIs(limitPkg + ".(*TokenLimiter).reserveN")
+	n := 0
+	for _, m := range []string{"Allow", "AllowCtx", "AllowN", "AllowNCtx"} {
+		f := c.fn(rule, limitPkg, "(*TokenLimiter)."+m)
+		if f == nil {
+			continue
+		}
+		n++
+		ps := c.paths(rule, f, px.Config{Inline: func(ci *px.CallInfo, d int) bool {
+			if ci.Static == nil || ci.Static == f {
+				return false
+			}
+			if strings.HasPrefix(ci.Static.Name(), "Allow") && strings.Contains(ci.Static.String(), "TokenLimiter") {
+				return true
+			}
+			// helpers introduced after the pinned tree are analysed in place
+			return ci.Static.Pkg == f.Pkg && !baselineFuncs[ci.Static.String()] && ci.Static.Blocks != nil
+		}})
+		var nP, ctxP *ssa.Parameter
+		for _, p := range f.Params[1:] {
+			switch typeString(p.Type()) {
+			case "int":
+				nP = p
+			case "context.Context":
+				ctxP = p
+			}
+		}
+		c.forall(rule, limitPkg+".(*TokenLimiter)."+m, "reaches reserveN exactly once on every path with its own n (1 for the shorthands) and context, and returns its answer", f, ps, func(p *px.Path) (bool, string) {
+			if p.Exit != px.ExitReturn {
+				return true, ""
+			}
+			rs := p.All(reserve)
+			if len(rs) != 1 {
+				return false, fmt.Sprintf("reserveN ×%d on a returning path: the entry point answers without (or more than once) asking the bucket", len(rs))
+			}
+			if len(p.Results) != 1 || p.Results[0].Strip(false) != rs[0].Res {
+				return false, "the returned answer is not reserveN's"
+			}
+			args := rs[0].Call.Args
+			if len(args) < 4 {
+				return false, "reserveN not called with (ctx, now, n)"
+			}
+			if nP != nil {
+				if !isParam(args[3], nP) {
+					return false, "the requested n is not handed on unchanged"
+				}
+			} else if k, ok := constInt(p, args[3]); !ok || k != 1 {
+				return false, "the shorthand does not ask for 1 token"
+			}
+			if ctxP != nil && !isParam(args[1], ctxP) {
+				return false, "the caller's context is not handed on"
+			}
+			return true, ""
+		})
+	}
+	c.R.Min(rule, 4, "Allow, AllowCtx, AllowN, AllowNCtx")
 }
